@@ -61,6 +61,8 @@ def run(ctx):
     for lab, d in gen_mod.arith_boundary_modules(L, tab):
         cases.append((lab, d))
     # values that contain themselves (array, hashmap as value / key / ring, struct), printed, compared, converted, dropped
+    for lab, d in gen_mod.short_stack_call_modules(L, tab):
+        cases.append((lab, d))
     for lab, d in gen_mod.cyclic_modules(L, tab):
         cases.append((lab, d))
     # synthetic instruction soups
